@@ -52,6 +52,29 @@ func (e *Engine) genDesc() *Desc {
 			classes[h] = cairo0Class(&hh)
 		}
 	}
+	if r.Chance(1, 4) {
+		// sync supplies the definition of a deployed contract's class when the state does not
+		// know it, without the class being in the declared lists: the class is registered at this
+		// block (and must go away with it)
+		for a := range diff.DeployedContracts {
+			var h felt.Felt
+			if r.Bool() {
+				h = cairo0Fxs[r.Intn(len(cairo0Fxs))]
+			} else {
+				h = sierraFxs[r.Intn(len(sierraFxs))].hash
+			}
+			if _, ok := prev.Classes[h]; ok {
+				continue
+			}
+			hh := h
+			diff.DeployedContracts[a] = &hh
+			if def, ok := classDef(&hh); ok {
+				classes[h] = def
+				e.hit("diff:class-definition-for-deployed-contract-without-declaration")
+			}
+			break
+		}
+	}
 	if r.Chance(1, 6) {
 		// a Cairo-0 class that is already declared is listed again: juno keeps the first
 		// declaration height, and reverting this block must not remove the class
@@ -146,6 +169,23 @@ func (e *Engine) RandomHistory(steps, maxHeight int) {
 	for i := 0; i < steps && e.broken == ""; i++ {
 		h := e.g.Height()
 		x := r.Intn(100)
+		if h > 0 && r.Chance(1, 6) {
+			// an operation juno must discard, between the accepted ones
+			op := discardedOps[r.Intn(len(discardedOps))]
+			var d *Desc
+			switch op {
+			case "revert-dropped":
+			case "store-late-fail":
+				d = e.lateFailDesc()
+			default:
+				d = e.genDesc()
+			}
+			if op == "revert-dropped" || d != nil {
+				e.Discard(op, d)
+				e.CheckAll()
+				continue
+			}
+		}
 		switch {
 		case h > 0 && (x < 14 || h >= maxHeight):
 			k := 1
